@@ -81,14 +81,18 @@ func VerifC20Path(h *verifrt.H) {
 
 // VerifC20Inject: two different (sanctuary, realm, swamp) triples never resolve to the same
 // canonical name, and Load(Get()) restores the triple. Parts are symbolic bytes so "/" is reachable.
-func VerifC20Inject(h *verifrt.H) {
-	maxPart := h.Param("partLen", 2)
-	s1 := h.String("s1", h.Len("s1Len", 1, maxPart))
-	r1 := h.String("r1", h.Len("r1Len", 1, maxPart))
-	w1 := h.String("w1", h.Len("w1Len", 1, maxPart))
-	s2 := h.String("s2", h.Len("s2Len", 1, maxPart))
-	r2 := h.String("r2", h.Len("r2Len", 1, maxPart))
-	w2 := h.String("w2", h.Len("w2Len", 1, maxPart))
+func VerifC20Inject(h *verifrt.H) { c20inject(h, h.Param("minPart", 1), h.Param("partLen", 2)) }
+
+// VerifC20InjectEmpty: the same with empty parts allowed (shorter parts keep it cheap).
+func VerifC20InjectEmpty(h *verifrt.H) { c20inject(h, 0, h.Param("partLen", 1)) }
+
+func c20inject(h *verifrt.H, minPart, maxPart int) {
+	s1 := h.String("s1", h.Len("s1Len", minPart, maxPart))
+	r1 := h.String("r1", h.Len("r1Len", minPart, maxPart))
+	w1 := h.String("w1", h.Len("w1Len", minPart, maxPart))
+	s2 := h.String("s2", h.Len("s2Len", minPart, maxPart))
+	r2 := h.String("r2", h.Len("r2Len", minPart, maxPart))
+	w2 := h.String("w2", h.Len("w2Len", minPart, maxPart))
 	a := New().Sanctuary(s1).Realm(r1).Swamp(w1)
 	b := New().Sanctuary(s2).Realm(r2).Swamp(w2)
 	differ := s1 != s2 || r1 != r2 || w1 != w2
